@@ -147,7 +147,7 @@ Lemma add_child_ok s nm c ic :
     s_failed s' = s_failed s /\ s_fuel s' = s_fuel s /\
     (ksorted (s_hn s) -> ksorted (s_hn s')).
 Proof.
-  intros Hne Hc Hp. unfold add_child. rewrite Hc. rewrite Hc.
+  intros Hne Hc Hp. unfold add_child. rewrite Hc. unfold add_child_prefix. rewrite Hc. rewrite Hc.
   assert (Hcn : Pos.eqb c nm = false) by now apply Pos.eqb_neq.
   assert (Hnc : Pos.eqb nm c = false) by (rewrite Pos.eqb_sym; exact Hcn).
   destruct Hp as [Hp|Hp]; rewrite Hp.
@@ -679,7 +679,7 @@ Proof.
   - unfold scratch, run in *. rewrite map_app, fold_left_app.
     destruct (run_adds e P init_st) as [s Hs]. rewrite Hs in *. cbn [snd] in IH.
     destruct (Rep_step e s P o IH Ha) as [s' [Hu Hr]].
-    cbn [map fold_left]. unfold step, step_gen. change (upd_gen 2 e s o) with (upd e s o).
+    cbn [map fold_left]. unfold step, step_gen. change (upd_gen 3 e s o) with (upd e s o).
     rewrite Hu. exact Hr.
 Qed.
 
